@@ -166,15 +166,17 @@ class ExternalVariableCollector(NodeVisitor):
         else:
             if node.lineno in self.comments:
                 self.vardoc[node.id] = self.comments[node.lineno]
-            if self.provenance.get(node.id) != "argument":
-                # A parameter that is assigned again remains a parameter
-                self.provenance[node.id] = "body"
-            self.assigned.add(node.id)
+            self._bound_in_body(node.id)
+
+    def _bound_in_body(self, name):
+        if self.provenance.get(name) != "argument":
+            # A parameter that is assigned again remains a parameter
+            self.provenance[name] = "body"
+        self.assigned.add(name)
 
     def visit_ExceptHandler(self, node):
         if node.name is not None:
-            self.provenance[node.name] = "body"
-            self.assigned.add(node.name)
+            self._bound_in_body(node.name)
 
     def visit_Import(self, node):
         self.visit_ImportFrom(node)
@@ -183,8 +185,7 @@ class ExternalVariableCollector(NodeVisitor):
         for alias in node.names:
             name = alias.asname or alias.name
             name = name.split(".")[0]
-            self.provenance[name] = "body"
-            self.assigned.add(name)
+            self._bound_in_body(name)
 
     def visit_arg(self, node):
         if node.lineno in self.comments:
